@@ -7,6 +7,11 @@ ALL = ["C%02d" % i for i in range(1, 21)]
 
 # id -> (category, technique, level text, level note, design ref, engine)
 CHECKS = {
+ "C12": ("fault_enumeration",
+         "exhaustive crash-point enumeration: every prefix of the recorded write-operation history and every byte cut of the next write, each image opened with the real reader",
+         "The real VersaTilesWriter and PMTilesWriter are run over a recording DataWriterTrait for tile sets from the BFS alphabet (1..3 tiles, multi-block, leaf-directory family in thorough) and all three compressions; for every k and every byte cut (all cuts of writes <= 4 KiB and of both header writes; first/middle/last/8 KiB boundaries of larger writes) the crash image is opened with the real reader: it must fail to open or return every source tile intact and nothing else on the probe set. Conformance: logs replayed through the real DataWriterFile give byte-identical files for the full log and 16 prefixes.",
+         "Crash model = prefixes and byte cuts of the operation sequence over a zero-filled file; OS-level reordering of unsynced blocks is outside the property's quantifier. A panic while opening counts as 'does not open' here and is C19's concern.",
+         "3/C12", "E-fault"),
  "C14": ("model_checking",
          "stateless DFS over all completion orders of the per-tile tokio tasks and all placements of consumer polls (controlled gates + manual polling of the real operator), exhaustive per (operator, N, window)",
          "For map_blob_parallel, filter_map_blob_parallel, from_coord_iter_parallel and for_each_buffered downstream, every decision sequence (release of a parked task / consumer poll) for N<=5 (quick) / N<=6 plus selected N<=8 (thorough) items and windows 1,2,3,N is executed on the real operator in a real multi-thread tokio runtime; outputs must be the expected multiset with every result on its own coordinate and buffered chunks a partition. Large streams (10^2..10^4) only under three fixed adversarial release disciplines (labelled, not exhaustive).",
@@ -60,6 +65,7 @@ def main():
             "add_only": True,
         },
         "engines": [
+            {"name": "E-fault", "path": "harness/src/checks/c12.rs", "serves_properties": ["C12"], "kind_free_text": "recording DataWriterTrait + crash-image materialiser, exhaustive over prefixes and byte cuts"},
             {"name": "E-order", "path": "harness/src/checks/c14.rs", "serves_properties": ["C14"], "kind_free_text": "completion-order explorer: gates in harness-supplied callbacks, manual poll_next, CPU-affinity-controlled concurrency window, DFS with prefix replay"},
             {"name": "E-sched", "path": "harness/src/bin/vsched.rs", "serves_properties": ["C13"], "kind_free_text": "controlled scheduler for real OS threads via symbol interposition of read/pread64/lseek64; stateless DFS, preemption bounded, replayable schedules"},
             {"name": "E-state", "path": "harness/src/checks/c20.rs, harness/src/checks/c15.rs", "serves_properties": ["C20", "C15"], "kind_free_text": "stateright BFS over real objects, canonical-state dedup"},
